@@ -13,6 +13,9 @@ Vocabulary (Model/C12.lean, specification section; Lemmas/C12.lean):
 * `holds d t x y p` - the (chip, core) set a tree node stands for; `Inv d t` the tree invariant;
 * `InRange c`       - 0 <= x, y < 256 and 0 <= p < 18;
 * `buildTraceAt x0 y0 lv ts` - the insertion loop on `RegionCoreTree(x0, y0, lv)` with all return values;
+* `runHistory x0 y0 lv ops` - calls `HOp.add x y p` / `HOp.read` on one tree object, results `HRes.added b` / `HRes.pairs l`;
+* `addsOf ops`      - the cores a history adds, in order; `annot`, `ResOK`, `AllOK` - each call with the cores added
+                      before it and the result it must have;
 * `fullCores ts bs` - the cores for which some `add_core` of the run returned `True`;
 * `exactB`, `nodupB`, `strictB` - the executable oracle the driver runs on the implementation's
                       output (enumeration through `chipsOf`/`coresOf`/`expand`, sorted keys);
@@ -24,6 +27,7 @@ Vocabulary (Model/C12.lean, specification section; Lemmas/C12.lean):
 import RigModel.Lemmas.C12
 import RigModel.Lemmas.C12Oracle
 import RigModel.Lemmas.C12Sub
+import RigModel.Lemmas.C12Hist
 import RigModel.Model.C09
 set_option linter.unusedSimpArgs false
 set_option linter.unusedVariables false
@@ -149,6 +153,41 @@ theorem subtree_insert (x0 y0 lv : Nat) (hl : lv ≤ 3) (hx : x0 % scale lv = 0)
 
 example : InRange (7, 9, 17) ∧ inSq 4 8 3 (7 : Int).toNat (9 : Int).toNat := by
   simp [InRange, inSq, scale]
+
+/-! ## histories on one tree object: `add_core` interleaved with read-outs -/
+
+/-- **Every read-out after ANY history.** For every sequence of calls on one `RegionCoreTree()`
+object - `add_core` of in-range cores (any order, repetitions allowed) interleaved with any number
+of read-outs `get_regions_and_coremasks()` at any points - no call fails, every `add_core` returns
+`False`, and EVERY read-out selects, under the documented meaning of a region word, exactly the
+cores added before it, each exactly once (`AllOK (annot [] ops) rs`, call by call); the final tree
+is the tree `compress_flood_fill_regions` builds from the added cores (read-outs leave no trace),
+satisfies the invariant and stands for exactly the added cores. -/
+theorem history_reads_exact (ops : List HOp) (hr : ∀ c, c ∈ addsOf ops → InRange c) :
+    ∃ t rs, runHistory 0 0 0 ops = .ok (t, rs) ∧ AllOK (annot [] ops) rs ∧
+      buildTree (addsOf ops) = .ok t ∧ Inv 4 t ∧
+      ∀ x y p, holds 4 t x y p ↔ (x, y, p) ∈ (addsOf ops).map toNat3 := by
+  obtain ⟨t, rs, e, ht, hh, hf, hb⟩ := hist_spec ops (RTree.new 0 0 0) [] [] rootOK_new
+    (by intro x y p; simp [holds_new]) hr
+  refine ⟨t, rs, ?_, hf, hb, ht.1, by simpa using hh⟩
+  simpa [runHistory] using e
+
+/-- the same, for one read-out singled out: after the calls `before`, a read-out returns pairs that
+select exactly the cores added by `before` - whatever was read earlier and whatever follows -/
+theorem history_read_at (before after : List HOp)
+    (hr : ∀ c, c ∈ addsOf (before ++ .read :: after) → InRange c) :
+    ∃ t rs l, runHistory 0 0 0 (before ++ .read :: after) = .ok (t, rs) ∧
+      rs[before.length]? = some (.pairs l) ∧ Exact ((addsOf before).map toNat3) l := by
+  obtain ⟨t, rs, e, hf, _⟩ := history_reads_exact _ hr
+  obtain ⟨r, h1, h2⟩ := allOK_get before .read after [] rs hf
+  cases r with
+  | added b => simp [ResOK] at h2
+  | pairs l => exact ⟨t, rs, l, e, h1, by simpa [ResOK] using h2⟩
+
+example : ∀ c, c ∈ addsOf [.add 3 4 5, .read, .add 255 0 17, .read, .read] → InRange c := by
+  intro c hc
+  simp only [addsOf, List.mem_cons, List.not_mem_nil, or_false] at hc
+  rcases hc with rfl | rfl <;> simp [InRange]
 
 /-! ## `compress_flood_fill_regions` -/
 
